@@ -108,7 +108,7 @@ func loadKnownFindings(path string) []knownFinding {
 				kf.Obligation = f[len("obligation="):]
 			}
 		}
-		kf.Rest = line
+		kf.Rest = strings.TrimSpace(strings.TrimPrefix(line, "property="+kf.Property))
 		out = append(out, kf)
 	}
 	return out
@@ -443,6 +443,25 @@ func runCheck(prop string, ps *PropSpec, tier, repo string, seed int, verbose bo
 	for _, si := range ps.StandIns {
 		rep, out, ok := runStandIn(vdir, repo, tier, seed, si)
 		standInReports = append(standInReports, rep)
+		// observations the harness reports as findings: listed in KNOWN_FINDINGS.txt -> KNOWN-FINDING, otherwise a violation
+		for _, l := range strings.Split(out, "\n") {
+			l = strings.TrimSpace(l)
+			if !strings.HasPrefix(l, "GOVC-STANDIN-FINDING obligation=") {
+				continue
+			}
+			rest := strings.TrimPrefix(l, "GOVC-STANDIN-FINDING obligation=")
+			key := strings.Fields(rest)[0]
+			if kf, listed := known[key]; listed {
+				fmt.Printf("KNOWN-FINDING: property=%s %s\n", prop, kf.Rest)
+				knownSeen = append(knownSeen, kf.Rest)
+				continue
+			}
+			path := filepath.Join(replayDir, "standin-"+fileSafe(si.Name)+"-"+fileSafe(key)+".txt")
+			_ = os.WriteFile(path, []byte("Bounded stand-in "+si.Name+" of property "+prop+" observed on the real code (input below):\n"+rest+"\n"), 0o644)
+			fmt.Printf("VIOLATION property=%s replay=%s\n", prop, path)
+			violations++
+			exit = 1
+		}
 		if !ok {
 			path := filepath.Join(replayDir, "standin-"+fileSafe(si.Name)+".txt")
 			_ = os.WriteFile(path, []byte("Bounded stand-in "+si.Name+" of property "+prop+" failed on the real code for the input below (a bounded check standing in for something the contracts assume or leave undecided).\nbound: "+si.Bound+"\n\n"+out), 0o644)
